@@ -8,7 +8,7 @@ META = dict(
         quick="real BacktestingDispatcher on asyncio; 1-2 sources x 2 events and 3 jobs, all with symbolic microsecond "
               "timestamps (jobs anywhere from 2 days before the first possible event to 5 days after the last), every "
               "insertion order of the jobs (solver-chosen permutation), a job scheduled from a handler, a job scheduled "
-              "from a job, a raising job, max_concurrent symbolic in 1..2; 6 jobs with symbolic times and no events; 2 jobs whose times are given in UTC / UTC+2 / UTC-3",
+              "from a job, a raising job (raising while it runs / when it is called), max_concurrent symbolic in 1..2; 6 jobs with symbolic times and no events; 2 jobs whose times are given in UTC / UTC+2 / UTC-3",
         thorough="adds 4 jobs (every insertion order), 2x2 events + 2 jobs and 1x3 events + 2 jobs with every extra "
                  "(job from handler, job from job, raising job) and max_concurrent 1..3, 7 jobs with symbolic times"),
     stubs=["logging disabled", "uuid.uuid4 deterministic"],
@@ -37,6 +37,9 @@ def jobs(tier):
         Job("1x2 events, 1 job, two jobs from one handler", "scenario",
             dict(BASE, nsrc=1, nev=2, njobs=1, max_mc=2, job_from_handler=2), split=200, max_paths=400000,
             validate_every=200, sample_every=400),
+        Job("1x2 events, 3 jobs, a job that raises when it is called", "scenario",
+            dict(BASE, nsrc=1, nev=2, njobs=3, max_mc=2, raising_job="call", job_perms=False), split=200,
+            max_paths=400000, validate_every=200, sample_every=400),
         Job("1x2 events, 2 jobs, job times given in other time zones", "scenario",
             dict(BASE, nsrc=1, nev=2, njobs=2, max_mc=1, job_zones=True), split=200, max_paths=400000,
             validate_every=200, sample_every=400),
